@@ -2,6 +2,7 @@ package props
 
 import (
 	"fmt"
+	"math"
 
 	"github.com/openacid/low/bitmap"
 
@@ -106,9 +107,10 @@ func (c *c15Mon) after(isSet bool, touched int64) bool {
 		w.Fail("Tail/first-word-all-ones-after-Set", c.detail(mon.D{}))
 		return false
 	}
-	end := off + 64*int64(len(tb.Words))
-	if m.maxSet >= off && m.maxSet >= end {
-		w.Fail("Tail/set-bit-beyond-stored-words", c.detail(mon.D{"highest_set": m.maxSet, "end_of_words": end}))
+	// (the last readable position instead of the end: Offset + 64*len is 2^63 when the word holding MaxInt64 is stored)
+	last := off - 1 + 64*int64(len(tb.Words))
+	if m.maxSet >= off && m.maxSet > last {
+		w.Fail("Tail/set-bit-beyond-stored-words", c.detail(mon.D{"highest_set": m.maxSet, "last_stored_position": last}))
 		return false
 	}
 	// the touched word and the first word: cheap, every op
@@ -153,30 +155,28 @@ func (c *c15Mon) full() bool {
 // ones, and a few positions far below Offset (implicit ones).
 func (c *c15Mon) positions() []int64 {
 	tb, m := c.tb, c.m
-	end := tb.Offset + 64*int64(len(tb.Words))
+	last := tb.Offset - 1 + 64*int64(len(tb.Words)) // inclusive; no overflow at the top of the int64 range
 	lo := tb.Offset - 130
 	if lo < 0 {
 		lo = 0
 	}
 	var ps []int64
-	if end-lo <= 6000 {
-		for j := lo; j < end; j++ {
-			ps = append(ps, j)
+	// span = number of positions in [lo, last]
+	if span := last - lo + 1; span <= 6000 {
+		for k := int64(0); k < span; k++ {
+			ps = append(ps, lo+k)
 		}
 	} else {
-		for j := lo; j < lo+3000; j++ {
-			ps = append(ps, j)
+		for k := int64(0); k < 3000; k++ {
+			ps = append(ps, lo+k, last-k)
 		}
-		for j := end - 3000; j < end; j++ {
-			ps = append(ps, j)
-		}
-		step := (end - lo) / 500
-		for j := lo; j < end; j += step {
-			ps = append(ps, j)
+		step := span / 500
+		for k := int64(0); k < span; k += step {
+			ps = append(ps, lo+k)
 		}
 	}
 	for _, j := range []int64{0, 1, 63, 64, m.o - 1, m.o, tb.Offset / 2, tb.Offset - 1} {
-		if j >= 0 && (j < end || j < tb.Offset) {
+		if j >= 0 && (j <= last || j < tb.Offset) {
 			ps = append(ps, j)
 		}
 	}
@@ -226,7 +226,7 @@ func (c *c15Mon) Set(j int64) bool {
 func (c *c15Mon) Compact() bool {
 	ps := c.positions()
 	before := c.read(ps)
-	endBefore := c.tb.Offset + 64*int64(len(c.tb.Words))
+	endBefore := c.tb.Offset - 1 + 64*int64(len(c.tb.Words))
 	c.w.Op = "TailBitmap.Compact"
 	c.note("Compact()")
 	c.tb.Compact()
@@ -234,8 +234,8 @@ func (c *c15Mon) Compact() bool {
 	if !c.after(false, -1) {
 		return false
 	}
-	if endAfter := c.tb.Offset + 64*int64(len(c.tb.Words)); endAfter != endBefore {
-		c.w.Fail("Tail/Compact-changed-readable-range", c.detail(mon.D{"end_before": endBefore, "end_after": endAfter}))
+	if endAfter := c.tb.Offset - 1 + 64*int64(len(c.tb.Words)); endAfter != endBefore {
+		c.w.Fail("Tail/Compact-changed-readable-range", c.detail(mon.D{"last_before": endBefore, "last_after": endAfter}))
 		return false
 	}
 	// Compact changes no Get result: the same positions, read again
@@ -284,7 +284,7 @@ func init() {
 	for _, p := range c15Patterns {
 		req = append(req, "pattern/"+p)
 	}
-	req = append(req, "pattern/long-forward", "pattern/long-shuffled", "pattern/long-far-bits-first", "reclaim-with-nonempty-words", "two-live-bitmaps")
+	req = append(req, "pattern/long-forward", "pattern/long-shuffled", "pattern/long-far-bits-first", "reclaim-with-nonempty-words", "two-live-bitmaps", "positions-up-to-MaxInt64")
 	register(&mon.Prop{
 		ID:    "C15",
 		Level: "exploration",
@@ -300,7 +300,8 @@ func init() {
 				{Name: "patterns", Env: 4, N: len(c15Offsets) * len(c15Patterns) * c.Pick(100, 6000), Run: c15Patterned},
 				{Name: "long-reclaim", Env: 1, N: c.Pick(4, 64), Run: c15Long},
 				{Name: "two-live-bitmaps", Env: 4, N: c.Pick(300, 30000), Run: c15TwoLive},
-				{Name: "tail>=2^31-bits", N: c.Pick(0, 1) * b2i(c.Base() != "386"), Run: c15HugeTail}, // 1 GiB: thorough only, not in a 32-bit address space
+				{Name: "top-of-int64", Env: 2, N: c.Pick(200, 20000), Run: c15TopOfInt64},
+				{Name: "tail>=2^31-bits", NoCold: true, N: c.Pick(0, 1) * b2i(c.Base() != "386"), Run: c15HugeTail}, // 1 GiB: thorough only, not in a 32-bit address space
 			}
 		},
 	})
@@ -553,6 +554,54 @@ func c15TwoLive(w *mon.W, idx int) {
 
 // c15HugeTail (thorough only; about 1 GiB while it runs): one Set 2^31+5 bits beyond the offset makes
 // the stored tail longer than 2^31 bits; Get/Get1 at tail-relative indexes around 2^31 and 2^32.
+// c15TopOfInt64: bitmaps whose tail reaches the largest positions an int64 can name: offsets MaxInt64&^63 - 64k,
+// Sets up to MaxInt64 itself. The top word is never filled completely (Offset could not move past it).
+func c15TopOfInt64(w *mon.W, idx int) {
+	r := w.Rng
+	const top = int64(math.MaxInt64)
+	k := []int64{0, 0, 1, 2, 5}[idx%5]
+	o := top&^63 - 64*k
+	c := c15New(w, o, false)
+	hole := top - int64(r.Intn(64)) // stays 0 in the top word
+	nops := 20 + r.Intn(200)
+	for op := 0; op < nops; op++ {
+		var j int64
+		switch r.Intn(5) {
+		case 0:
+			j = top - int64(r.Intn(64))
+		case 1:
+			j = top
+		case 2:
+			j = top &^ 63
+		case 3:
+			j = o + int64(r.Intn(int(64*(k+1))))
+		default:
+			if !c.Compact() {
+				return
+			}
+			continue
+		}
+		if j == hole {
+			continue
+		}
+		if !c.Set(j) {
+			return
+		}
+		if op%8 == 7 && !c.quiesce() {
+			return
+		}
+	}
+	if !c.quiesce() {
+		return
+	}
+	c.finish("top-of-int64")
+	w.Bucket("positions-up-to-MaxInt64")
+	w.Distinct(gen.Hash64(0x7f7f, uint64(idx), uint64(nops), uint64(hole)))
+	w.Sample(func() interface{} {
+		return mon.D{"what": "tail at the top of the int64 range", "initial_offset": o, "ops": nops}
+	})
+}
+
 func c15HugeTail(w *mon.W, _ int) {
 	o := int64(1 << 40)
 	c := c15New(w, o, true)
